@@ -108,6 +108,9 @@ def _centred_strategy(draw):
         "include_origin": g.n(3) > 0,
         "remove_large_pts": rl,
         "boundary_given": g.flag(),
+        # a boundary value other than the natural one (incl. exactly 0.0): used when the grid is cut at 10 or 50 bohr and
+        # the origin is included, where it shifts the potential by the resolvable amount (B*Y00 - Q)/r_c
+        "boundary_other": g.pick([None, None, 0.0, 0.5, -0.25]),
         "ode_tol": g.pick([None, None, 1e-4, 1e-8]),
         "as_molgrid": g.n(4) == 0,
         "pseed": g.n(10**6),
@@ -329,6 +332,20 @@ def body_centred(case, ctx):
     kw = {"include_origin": bool(case["include_origin"]), "remove_large_pts": case["remove_large_pts"]}
     if case["boundary_given"]:
         kw["boundary"] = q / Y00  # limit of u_00 = r V_00: total charge over Y_00 (what the solver infers otherwise)
+    shift = 0.0
+    other = case.get("boundary_other")
+    if other is not None and kw["include_origin"] and case["remove_large_pts"] in (10.0, 50.0):
+        # u_00 = r V_00 solves a two-point problem with u(0) = 0 and u(r_c) = B at the outermost radial node kept; the
+        # density has decayed there, so a boundary value B instead of Q/Y00 adds the linear term (B - Q/Y00) r / r_c to
+        # u_00, i.e. the constant (B*Y00 - Q)/r_c to the potential.  B = 0.0 is a value like any other.
+        nodes = np.asarray(ag.rgrid.points, dtype=float)
+        r_c = float(np.max(nodes[nodes <= case["remove_large_pts"]]))
+        amin = min(float(gs["a"]) for gs in gauss)
+        if r_c > 4.0 and math.erfc(math.sqrt(amin) * (r_c - 0.2)) < 1e-6:
+            b_val = float(other) * q / Y00
+            kw["boundary"] = b_val
+            shift = (b_val * Y00 - q) / r_c
+            ctx.cls("boundary-other:" + ("zero" if b_val == 0.0 else "scaled"))
     if case["ode_tol"] is not None:
         kw["ode_params"] = {"tol": case["ode_tol"]}
     _grid_cls(ctx, gd)
@@ -354,7 +371,7 @@ def body_centred(case, ctx):
         u1 = abs(r1 * float(pot_ref(ag.center[None, :] + np.array([[r1, 0.0, 0.0]]), gauss, cens)[0]))
         tol = tol + u1 / r
     got = v(pts)
-    ref = pot_ref(pts, gauss, cens)
+    ref = pot_ref(pts, gauss, cens) + shift
     base = ATOL * _sumabs(gauss)
     ctx.info["ratio"] = float(np.max(np.maximum(np.abs(got - ref) - (tol - base), 0.0)) / base)
     ctx.close(got, ref, tol, "bvp-potential", f"atomic grid, centred density, {kw}")
